@@ -41,6 +41,10 @@ class ContractSet:
         for name, c in getattr(mod, "CLASSES", {}).items():
             self.classes[name] = {"file": c.get("file"),
                                   "fields": {f: parse_kind(k) for f, k in c.get("fields", {}).items()}}
+        if getattr(mod, "USES_NX", False):
+            from .lib_nx import GRAPH_FIELDS
+            for g in ("Graph", "DiGraph"):
+                self.classes[g] = {"file": None, "fields": {f: parse_kind(k) for f, k in GRAPH_FIELDS.items()}}
         self.functions = dict(getattr(mod, "FUNCTIONS", {}))
         self.lemmas = dict(getattr(mod, "LEMMAS", {}))
         self.spec_funcs = {n: f for n, f in self.spec_mod.funcs.items() if "." not in n}
